@@ -12,6 +12,7 @@ import (
 	"net"
 	"net/http"
 	"net/http/httptest"
+	"os"
 	"runtime"
 	"runtime/debug"
 	"sort"
@@ -135,6 +136,10 @@ func Execute(t *testing.T, p *Prop, tape *simrt.Tape, tier string, keepTrace boo
 		synctest.Test(t, func(t *testing.T) {
 			s := simrt.NewSim(tape)
 			s.KeepTrace = keepTrace
+			s.DebugElig = keepTrace && os.Getenv("SIM_DEBUGELIG") != ""
+			if s.DebugElig {
+				tape.DebugLog = func(l string) { s.Trace = append(s.Trace, l) }
+			}
 			ctx, cancel := context.WithCancel(context.Background())
 			run = &Run{T: t, Tape: tape, S: s, Tier: tier, Desc: map[string]any{}, Ctx: ctx, stop: cancel}
 			func() {
